@@ -266,6 +266,17 @@ func scenarios() []scenario {
 		sOp(dt("t3", "v1", "")), sGC(), sRec("u1"), sRec("u1"),
 		sOp(dt("t1", "v1", "")),
 	}})
+	// F: a second Usage whose using resource is given by a selector that matches nothing: it names
+	// the used resource (spec.of) but its spec.by stays unresolved
+	bysel := resSpec{Version: "v1", Sel: map[string]string{"grp": "nothing"}}
+	ux := usageSpec{Name: "u0", Version: "v1beta1", Of: ref("t1", "v1"), By: &bysel}
+	u9 := usageSpec{Name: "u9", Version: "v1beta1", Of: ref("t1", "v1")}
+	out = append(out, scenario{Name: "unresolved-by-selector", Things: baseThings, Steps: []step{
+		sOp(cu(u9)), sRec("u9"), sRec("u9"),
+		sOp(cu(ux)), sOp(dt("t1", "v1", "Foreground")),
+		sRec("u0"), sOp(dt("t1", "v2", "")),
+		sOp(du("u0", "v1beta1", "")), sRec("u0"), sOp(dt("t1", "v1", "Orphan")),
+	}})
 	return out
 }
 
